@@ -16,6 +16,7 @@ import (
 	"net"
 	"net/http"
 	"os"
+	"strings"
 	"sync"
 	"time"
 
@@ -105,13 +106,27 @@ func runE2E(casesPath string, nrand int) {
 			l.FilterChains[0].TLSContexts = []v2.TLSConfig{{Status: true, CACert: certtool.GetRootCA().CertPem,
 				CertChain: ci.CertPem, PrivateKey: ci.KeyPem}}
 		}})
-	m := e2e.StartMosn(e2e.BuildConfig([]v2.Listener{lst, lstFixed, lstInsp},
+	// listeners configured with an ordered protocol LIST (downstream_protocol "a,b"): the selection loops over it
+	e2eLists := []string{"Http1,Http2", "Http2,Http1", "Http1,bolt", "bolt,Http1", "dubbo,Http1,bolt", "Http1,dubbo,tars"}
+	all := []v2.Listener{lst, lstFixed, lstInsp}
+	listAddr := map[string]string{}
+	for i, l := range e2eLists {
+		a := e2e.FreeAddr()
+		listAddr["list:"+l] = a
+		all = append(all, e2e.BuildListener(e2e.ListenerSpec{Name: fmt.Sprintf("c07l%d", i), Addr: a, Downstream: l, Upstream: "Http1",
+			Routes: []e2e.RouteSpec{{Prefix: "/", Cluster: "c07c", TimeoutMs: 60000}}}))
+	}
+	m := e2e.StartMosn(e2e.BuildConfig(all,
 		e2e.BuildClusters([]e2e.ClusterSpec{{Name: "c07c", Hosts: []string{up.Addr}}}), e2e.ScratchLog(dir)))
 	defer m.Close()
 	vh.Must(e2e.WaitListen(laddr, 10*time.Second), "mosn listener")
 	vh.Must(e2e.WaitListen(faddr, 10*time.Second), "mosn listener (fixed protocol)")
 	vh.Must(e2e.WaitListen(iaddr, 10*time.Second), "mosn listener (inspector)")
 	addrOf := map[string]string{"auto": laddr, "fixed": faddr, "inspector": iaddr, "tls": iaddr}
+	for k, a := range listAddr {
+		vh.Must(e2e.WaitListen(a, 10*time.Second), "mosn listener ("+k+")")
+		addrOf[k] = a
+	}
 
 	base := 100
 	// kind: auto | fixed (plain-text client on that listener) | inspector (plain-text client on the inspector
@@ -139,8 +154,18 @@ func runE2E(casesPath string, nrand int) {
 		for _, p := range pauses {
 			pauseAt[p] = true
 		}
-		tr.Emit(vh.Ev{"ev": "run", "proto": "Http1", "cls": cls, "lens": r.lens, "units": r.lens, "mode": mode,
-			"conts": 0, "shapes": shapes, "cuts": cuts, "pauses": pauses, "transport": transport, "peek": peek})
+		rev := vh.Ev{"ev": "run", "proto": "Http1", "cls": cls, "lens": r.lens, "units": r.lens, "mode": mode,
+			"conts": 0, "shapes": shapes, "cuts": cuts, "pauses": pauses, "transport": transport, "peek": peek}
+		if strings.HasPrefix(mode, "list:") {
+			l := strings.Split(mode[5:], ",")
+			rev["listn"] = len(l)
+			for i, x := range l {
+				if x == "Http1" {
+					rev["ownpos"] = i + 1
+				}
+			}
+		}
+		tr.Emit(rev)
 		nruns++
 		tc0, err := net.DialTimeout("tcp", addrOf[kind], 5*time.Second)
 		if err != nil {
@@ -318,6 +343,21 @@ func runE2E(casesPath string, nrand int) {
 			continue
 		}
 		for _, kind := range []string{"fixed", "auto", "inspector", "tls"} {
+			one("e2e-zones", kind, shapesFor(z.Frames, ci), func(r *run) ([]int, []int) { return concreteCuts(r, z), nil })
+		}
+	}
+	// listeners with a protocol list: a short first segment of every length, and every 10th zone case
+	for _, l := range e2eLists {
+		kind := "list:" + l
+		for c := 1; c <= 26; c++ {
+			c := c
+			one("e2e-list-cut", kind, []int{1, 0}, func(r *run) ([]int, []int) { return []int{c, len(r.all)}, nil })
+		}
+		for ci, z := range zs {
+			z := z
+			if z.Pre > 0 || z.Tmo > 0 || ci%10 != 0 {
+				continue
+			}
 			one("e2e-zones", kind, shapesFor(z.Frames, ci), func(r *run) ([]int, []int) { return concreteCuts(r, z), nil })
 		}
 	}
